@@ -728,6 +728,29 @@ for it in range(12 if Q else 300):
 run_driver(dist_lines, dist_meta, "distance")
 run_coq("dist", "(list (vec3 float) * list (vec3 float)) * list (list float)", dist_coq,
         "fun c => leq (leq feq) (distance_table NumF (fst (fst c)) (snd (fst c))) (snd c)", "distance", "distance table")
+# a set against ITSELF (the same Points object twice, or an equal copy), more points than one block of the default block
+# size holds, into the caller's re-used table (stale values, NaN): every entry is the distance of its pair
+for it in range(6 if Q else 40):
+    n_ = int(rng.choice([3, 85, 90, 170, 200, int(rng.integers(86, 400))]))
+    pp = rng.normal(size=(n_, 3))
+    Pa = g.Points(pp)
+    Pb = Pa if it % 3 != 2 else g.Points(pp.copy())
+    fillv = [np.nan, -1.0, 7.5][it % 3]
+    Do = np.full((n_, n_), fillv)
+    kw_ = {} if it % 2 == 0 else {"block_size": int(rng.choice([7, 50, 1000]))}
+    ret = g.distance_pairwise(Pa, Pb, out=Do, **kw_)
+    brute = np.sqrt(((pp[:, None, :] - pp[None, :, :]) ** 2).sum(axis=-1))
+    fresh = g.distance_pairwise(Pa, Pb, **kw_)
+    evaluations += n_ * n_
+    chk.count(distance_self=("same object" if Pb is Pa else "equal copy") + f", table prefilled with {fillv}")
+    nontrivial.add(("dist-self", it, n_))
+    if not (np.allclose(Do, brute, rtol=1e-13, atol=1e-15) and np.allclose(fresh, brute, rtol=1e-13, atol=1e-15) and (ret is None or np.array_equal(np.asarray(ret), Do))):
+        bad_ = np.argwhere(~np.isclose(Do, brute, rtol=1e-13, atol=1e-15))
+        chk.violation("distance-self", f"distance table of a set of {n_} points against itself ({'same object' if Pb is Pa else 'equal copy'}, table prefilled with {fillv}) "
+                      "differs from the Euclidean distance of the pairs",
+                      dict(points=pp, kwargs=kw_, prefilled_with=fillv, first_wrong_entries=bad_[:5], got=[float(Do[tuple(b)]) for b in bad_[:5]],
+                           expected=[float(brute[tuple(b)]) for b in bad_[:5]], predicate="out[i,j] = |p[i] - p[j]|"), True)
+        break
 try:
     g.distance_pairwise(g.Points(np.zeros((2, 2, 3))), g.Points(np.zeros((2, 3))))
     chk.violation("distance-dim", "distance_pairwise accepts a 2-D point array", {}, True)
@@ -1021,6 +1044,36 @@ for mask in range(64):
         box_coq.append((cpair(cpair(*(copt(b, cfloat) for b in supplied)), clist([cv3(p) for p in pts.reshape(-1, 3)]),
                               clist([cbool(b) for b in np.asarray(out).reshape(-1)])), meta))
         nontrivial.add(("box", mask, rep))
+# ... and on Grid objects (structured point sets) with bounds that are exactly grid lines, the grid's own ends included
+for it in range(12 if Q else 100):
+    dx_ = float(2.0 ** rng.integers(-3, 1))
+    x0_, z0_ = float(rng.integers(-4, 4)) * dx_, float(rng.integers(0, 4)) * dx_
+    nx_, nz_ = int(rng.integers(1, 7)), int(rng.integers(1, 7))
+    threed = it % 4 == 3
+    ny_ = int(rng.integers(2, 4)) if threed else 1
+    G_ = g.Grid(x0_, x0_ + (nx_ - 1) * dx_, 0.0, (ny_ - 1) * dx_, z0_, z0_ + (nz_ - 1) * dx_, dx_)
+    vec_ = {"x": np.asarray(G_.xvect, float), "y": np.asarray(G_.yvect, float), "z": np.asarray(G_.zvect, float)}
+    kw = {}
+    for ax in "xyz":
+        for side in ("min", "max"):
+            r_ = rng.random()
+            if r_ < 0.45:
+                kw[ax + side] = float(vec_[ax][int(rng.integers(0, len(vec_[ax])))])      # exactly a grid line
+            elif r_ < 0.6:
+                kw[ax + side] = float(vec_[ax][int(rng.integers(0, len(vec_[ax])))] + (0.5 if side == "max" else -0.5) * dx_ * rng.choice([-1, 1]))
+    out = G_.points_in_rectbox(**kw)
+    brute = np.ones(G_.shape, dtype=bool)
+    for k_, b_ in kw.items():
+        comp = {"x": G_.x, "y": G_.y, "z": G_.z}[k_[0]]
+        brute &= (b_ <= comp) if k_.endswith("min") else (comp <= b_)
+    evaluations += int(np.prod(G_.shape))
+    chk.count(rectbox_on_grid="3-D grid" if threed else "2-D grid")
+    nontrivial.add(("box-grid", it))
+    if np.shape(out) != G_.shape or not np.array_equal(np.asarray(out, bool), brute):
+        chk.violation("rectbox-grid", "Grid.points_in_rectbox differs from the conjunction of the supplied inclusive bounds",
+                      dict(grid=dict(xmin=x0_, xmax=x0_ + (nx_ - 1) * dx_, ymin=0.0, ymax=(ny_ - 1) * dx_, zmin=z0_, zmax=z0_ + (nz_ - 1) * dx_, pixel_size=dx_),
+                           bounds=kw, mask=np.asarray(out), brute_force=brute, predicate="mask = AND of supplied inclusive bounds"), True)
+        break
 run_coq("rectbox", "(option float * option float * option float * option float * option float * option float) * list (vec3 float) * list bool",
         box_coq,
         "fun c => let '(b, ps, out) := c in let '(x0, x1, y0, y1, z0, z1) := b in "
